@@ -1,5 +1,5 @@
 """C06 - access rights follow key relationships."""
-from harness import core, repo_hist
+from harness import cli_hist, core, repo_hist
 from harness.core import Report
 
 RULE = ('cases = histories over key graphs built by init/add-key (shared, clone, independent; encrypted only), with per-user observations: '
@@ -11,11 +11,17 @@ CHECKS = {'access', 'frame', 'restore'}
 MINE = ('visibility', 'details', 'file_list_foreign', 'restore_foreign', 'restore_foreign_crash', 'delete_foreign_succeeded', 'delete_foreign_crash', 'refused_delete_mutated', 'unlock', 'unlock_crash', 'gc_overreach', 'referenced_chunk_missing', 'restore_mismatch', 'exception')
 
 
+CLI_MINE = ('exception', 'hang', 'snapshot_unreadable', 'snapshot_objects', 'snapshot_name', 'visibility', 'details', 'file_list_foreign', 'restore_foreign', 'restore_foreign_crash', 'delete_foreign_succeeded', 'refused_delete_mutated', 'shared_secrets_differ', 'independent_secrets_equal', 'key_unusable', 'gc_overreach')
+
+
 def _run(ctx, n, nops, rep, concurrent=None):
     seeds = [ctx.rng.randint(0, 2 ** 31) for _ in range(n)]
     repo_hist.run_batch(seeds, ctx.scratch, rep, nops=nops, weights=WEIGHTS, checks=CHECKS,
                         concurrent=concurrent or ctx.rng.choice([1, 2, 4]), delay=0.001, encrypted=True)
     rep.violations[:] = [v for v in rep.violations if v['signature']['kind'] in MINE]
+    # the same property through the tool as a user runs it: fresh `python -m replicat` processes, a repository on disk, real faults
+    cli_hist.run_scenarios(ctx, rep, {'plain': ctx.scale(6, 60)}, CLI_MINE, encrypted=True)
+    cli_hist.termination_probe(ctx, rep, {'delete'})
 
 
 def run(ctx) -> Report:
@@ -32,6 +38,9 @@ def search(ctx, broken) -> Report:
 
 
 def replay(ctx, obj):
+    rc = cli_hist.replay_cli(ctx, obj, CLI_MINE)
+    if rc is not None:
+        return rc
     rep = Report(rule=RULE)
     seed = (obj.get('replay') or {}).get('seed')
     if seed is None:
